@@ -229,8 +229,8 @@ def r1(ctx):
                 continue
             ctx.bad("C06.R1", key(f, "split-sensitive-compare|" + norm(n)), site(f, n),
                     "`%s` is decided on whatever the last read returned: when the %d bytes are split across two reads the comparison fails although the stream is valid" % (norm(n), K))
-    ctx.floor("C06.R1", "delimiter searches in read loops", n_loops, 4)
-    ctx.floor("C06.R1", "k-byte comparisons", n_cmp, 3)
+    ctx.floor("C06.R1", "delimiter searches in read loops", n_loops, 3)
+    ctx.floor("C06.R1", "k-byte comparisons", n_cmp, 2)
 
 
 # --------------------------------------------------------------------------- R2 + R3
@@ -292,7 +292,7 @@ def r23(ctx):
                 ctx.check("C06.R3", bool(mates), key(f, "unpaired-prefix|" + norm(p["node"])), site(f, p["node"]),
                           "`%s` takes a prefix of the buffer but the complementary suffix is never taken: whatever followed in the same read is dropped" % norm(p["node"]),
                           "prefix has matching suffix")
-    ctx.floor("C06.R3", "split pairs", n_pairs, 14)
+    ctx.floor("C06.R3", "split pairs", n_pairs, 9)
 
 
 def _colocated(f, a, b):
@@ -350,7 +350,7 @@ def r4(ctx):
                 if isinstance(c, ast.Call) and isinstance(c.func, ast.Attribute) and c.func.attr in ("read", "unread") and tail(c.func.value) == "unreader":
                     n += 1
                     ctx.ok("C06.R4", site(f, c), "goes through the Unreader")
-    ctx.floor("C06.R4", "unreader read/unread call sites in the parser layer", n, 12)
+    ctx.floor("C06.R4", "unreader read/unread call sites in the parser layer", n, 7)
     # chunk() only from Unreader.read
     for f in repo.funcs():
         for c, q in repo.calls_in(f):
@@ -395,9 +395,8 @@ def r5(ctx):
     g = f.cfg
     LIM = f.params[3]
     reads = [n for c in walk_own(f.node) if is_read_call(repo, f, c) for n in nodes_with(f, c)]
-    loop = [w for w in walk_own(f.node) if isinstance(w, ast.While)]
-    ctx.need(loop and reads, "C06.R5: read_line loop not recognised")
-    head = [n for n in g.nodes_of(loop[0]) if n.kind == "join"][0]
+    ctx.need(reads, "C06.R5: read_line never refills")
+    head = g.entry
 
     def atom_of(e):
         if isinstance(e, ast.Call) and isinstance(e.func, ast.Attribute) and e.func.attr == "find":
